@@ -647,7 +647,7 @@ pub fn main(a: Args) -> i32 {
     let mut r = Rng::new(a.seed ^ 0xC02);
     let pool: Vec<Vec<u8>> = vec![b"".to_vec(), b"one".to_vec(), b"two".to_vec(), b"three".to_vec(), vec![0x41; if a.tier == "thorough" { 70000 } else { 40 }]];
     let paths = ["f", "g", "d/h", "d/k"];
-    let n = if a.tier == "thorough" { 1500 } else { 110 };
+    let n = if a.tier == "thorough" { 1500 } else { 190 };
     let hists: Vec<(Tree, Tree, Vec<Op>, &'static str)> = if let Some(p) = &a.replay {
         std::fs::read_to_string(p).unwrap().lines().filter(|l| !l.trim().is_empty() && !l.starts_with('#')).map(|l| { let (x, y, o) = parse_case(l); (x, y, o, "replay") }).collect()
     } else {
